@@ -433,6 +433,8 @@ func init() {
 			st.mem[buf.R] = ex.freshMemLike(st.mem[buf.R], "readfull_buf")
 		}
 		f.readerConsume(st, a[0], n, err)
+		// reader_want: how many bytes this call asked the reader for (the length of the buffer)
+		st.ghost["reader_want"] = VInt{buf.Len}
 		return VTuple{[]Val{VInt{n}, VIface{ID: err}}}
 	}
 	models["io.ReadAll"] = func(f *frame, st *State, ins *ssa.Call, a []Val) Val {
